@@ -93,6 +93,10 @@ pub struct AgentCfg {
     pub steps: usize,
     pub seed: u64,
     pub adv_rate: f64,
+    /// 0 trading enabled throughout; 1 disabled from the start; 2 disabled half-way. While trading is disabled the
+    /// harness quotes are *crossed* (bids above asks), which is a legitimate state of a no-trading period
+    #[serde(default)]
+    pub trading_mode: u8,
 }
 
 pub trait Host {
@@ -133,11 +137,13 @@ pub struct AgentCensus {
     pub per_kind: [u64; 6],
     pub start_books: [u64; 4],
     pub trades: u64,
+    pub updates_while_trading_disabled: u64,
+    pub updates_on_crossed_book: u64,
 }
 impl AgentCensus {
     pub fn merge(&mut self, o: &AgentCensus) {
         macro_rules! add { ($($f:ident),*) => { $( self.$f += o.$f; )* } }
-        add!(configs, updates, new_orders, limit_buys, limit_sells, market_orders, cancellations, adversarial_configs, injected_words, sigma10_configs, p0_knobs, p1_knobs, clamped_high_prices, clamped_zero_prices, trades);
+        add!(configs, updates, new_orders, limit_buys, limit_sells, market_orders, cancellations, adversarial_configs, injected_words, sigma10_configs, p0_knobs, p1_knobs, clamped_high_prices, clamped_zero_prices, trades, updates_while_trading_disabled, updates_on_crossed_book);
         for i in 0..6 {
             self.per_kind[i] += o.per_kind[i];
         }
@@ -194,6 +200,7 @@ pub fn random_cfg(rng: &mut Sm, i: usize) -> AgentCfg {
         steps: rng.range(1, 200) as usize,
         seed: rng.next(),
         adv_rate: if rng.chance(0.3) { *rng.pick(&[0.02, 0.1, 0.3]) } else { 0.0 },
+        trading_mode: match rng.below(10) { 0 | 1 => 1, 2 => 2, _ => 0 },
     }
 }
 
@@ -223,7 +230,8 @@ fn run_host<H: Host>(mut host: H, c: &AgentCfg, cs: &mut AgentCensus, tallies: &
     let assets = <H::E as SimEnv>::ASSETS;
     let a = c.asset;
     let tick = c.ticks[a];
-    let mut env = <H::E as SimEnv>::create(0, &c.ticks, 1000, true);
+    let mut trading = c.trading_mode != 1;
+    let mut env = <H::E as SimEnv>::create(0, &c.ticks, 1000, trading);
     let mut rng = AdvRng::new(c.seed, c.adv_rate);
     let mut hr = Sm::derive(c.seed, 0x16);
     cs.configs += 1;
@@ -237,9 +245,16 @@ fn run_host<H: Host>(mut host: H, c: &AgentCfg, cs: &mut AgentCensus, tallies: &
     }
     // starting book from harness-owned quotes
     let center = (c.center / tick).max(20) * tick;
-    let quote = |env: &mut H::E, hr: &mut Sm| {
+    let quote = |env: &mut H::E, hr: &mut Sm, crossed: bool| {
         for k in 0..assets {
             let tk = c.ticks[k];
+            if crossed && c.center != 0 {
+                // no-trading period: harness bids rest above harness asks
+                let ctr = (c.center / tk).max(20) * tk;
+                let _ = env.place(k, true, hr.range(50, 500) as u32, HARNESS_TRADER, Some(ctr + tk * hr.range(1, 8) as u32));
+                let _ = env.place(k, false, hr.range(50, 500) as u32, HARNESS_TRADER, Some(ctr - tk * hr.range(1, 8) as u32));
+                continue;
+            }
             if c.center == 0 {
                 // bottom of the range: asks on the first three ticks, bids (if any) cannot exist below
                 if c.start_book != 1 {
@@ -256,7 +271,7 @@ fn run_host<H: Host>(mut host: H, c: &AgentCfg, cs: &mut AgentCensus, tallies: &
             }
         }
     };
-    quote(&mut env, &mut hr);
+    quote(&mut env, &mut hr, !trading);
     env.do_step(&mut rng);
     let _ = center;
     // own orders: everything the agent created (per asset ids)
@@ -282,8 +297,23 @@ fn run_host<H: Host>(mut host: H, c: &AgentCfg, cs: &mut AgentCensus, tallies: &
     }
 
     for step in 0..c.steps {
+        if c.trading_mode == 2 && step == c.steps / 2 {
+            trading = false;
+            env.set_trading(false);
+            quote(&mut env, &mut hr, true);
+            if let Err(p) = catch(|| env.do_step(&mut rng)) {
+                return bad("abort_in_step", format!("harness-only step panicked: {}", p));
+            }
+        }
         if step % 7 == 3 {
-            quote(&mut env, &mut hr);
+            quote(&mut env, &mut hr, !trading);
+        }
+        if !trading {
+            cs.updates_while_trading_disabled += 1;
+            let v = env.book(a).views();
+            if v.bid_vol > 0 && v.ask_vol > 0 && v.bid_ask.0 >= v.bid_ask.1 {
+                cs.updates_on_crossed_book += 1;
+            }
         }
         let before: Vec<Vec<ROrder>> = (0..assets).map(|k| env.env_orders(k)).collect();
         let pend_before = env.pending().map(|p| p.len());
@@ -574,11 +604,13 @@ pub fn c16(ctx: &Ctx) -> i32 {
         ("limit_sells", cs.limit_sells, 5000),
         ("limit_buys", cs.limit_buys, 5000),
         ("market_orders", cs.market_orders, 2000),
+        ("updates_while_trading_disabled", cs.updates_while_trading_disabled, 5000),
+        ("updates_on_crossed_book", cs.updates_on_crossed_book, 2000),
     ]);
     let cov = json!({
         "evaluations": cs.updates,
         "distinct_nontrivial": d.len(),
-        "rule": "cases = agent update calls inside seeded simulations (one agent family per simulation so ownership is unambiguous: random / noise / momentum, single- and multi-asset; ticks 1..10, agent counts 1..40, probabilities in {0, (0,1), 1, 1.5}, sigma in {0.1, 1, 10}, empty / bid-only / ask-only / two-sided starting books, 1..200 steps; 30% of the simulations under an adversarial RngCore that injects boundary words); judged: every order created by an update (grid, tick range, side of the observed mid, volume, trader id, asset), every queued cancellation (hook H1: own order, Active at the look), one live order per random agent, p=0 never / p>=1 exactly once per trader, Bernstein bands for p in (0,1), and no panic in update/step; distinct = distinct configurations; non-trivial = the configuration emitted at least one instruction",
+        "rule": "cases = agent update calls inside seeded simulations (one agent family per simulation so ownership is unambiguous: random / noise / momentum, single- and multi-asset; ticks 1..10, agent counts 1..40, probabilities in {0, (0,1), 1, 1.5}, sigma in {0.1, 1, 10}, empty / bid-only / ask-only / two-sided starting books, 1..200 steps; 30% of the simulations spend all or the second half of their steps with trading disabled on a crossed book; 30% of the simulations under an adversarial RngCore that injects boundary words); judged: every order created by an update (grid, tick range, side of the observed mid, volume, trader id, asset), every queued cancellation (hook H1: own order, Active at the look), one live order per random agent, p=0 never / p>=1 exactly once per trader, Bernstein bands for p in (0,1), and no panic in update/step; distinct = distinct configurations; non-trivial = the configuration emitted at least one instruction",
         "samples": samples,
         "census": cs,
         "frequency_bands": bands,
